@@ -170,15 +170,15 @@ PROPS = {
         "claimed": True,
         "title": "P2PK locks: spendable only with the required signatures (NUT-11)",
         "lean": ["Gonuts.Props.C12", "Gonuts.Tie.Spend"],
-        "streams": ["p2pk", "spendmint", "spendwallet"],
+        "streams": ["p2pk", "spendmint", "spendwallet", "nut10"],
         "level": "proof",
         "technique": "Lean 4 theorems over Model.Spend (line-by-line model of nut11.go and of the SIG_ALL code in mint.go; Schnorr validity, key parsing and the clock are parameters) against the declarative Spec.Spendable; pinned function bodies + skeleton ties; differential correspondence and a model-free NUT-11 evaluator on real btcec keys/signatures",
         "design_ref": "DESIGN.md §4.3, §5 C12",
-        "text": "For ALL inputs (unbounded lists, any Schnorr-validity relation, key parser and clock value) the Lean model of the repaired code satisfies: HasValidSignatures accepts only if n signatures verify under n DISTINCT positions of the key list (sound; complete when a signature verifies under at most one listed key; exact for the refund threshold 1); VerifyP2PKLockedProof = ok implies — and under the same hypothesis is equivalent to — the declarative NUT-11 statement Spec.spendableP2PK (tag lookup 'last wins', well-formedness as ∀-clauses, threshold as ∃ of a sublist of signatures paired with a sub-permutation of keys, locktime/refund rule); malformed tag lists are rejected whatever the witness; a SIG_ALL input at ANY position makes ProofsSigAll true, a successful swap then has every input NUT-10 + SIG_ALL with one shared key list and threshold and every output signed by that many distinct key positions over its decoded B_, and the melt is refused; the witnesses written by AddSignatureToInputs/Outputs are accepted under the stated entitlement. The model is tied to the source by pinned go/printer bodies of the 13 mirrored functions, constants, error table and call skeletons, and by the stream p2pk (exhaustive product of the quantifier x 20 witness shapes with real btcec keys/signatures, corner cases, seeded random, SIG_ALL input lists up to length 5 x output shapes, helpers) with a model-free NUT-11 evaluator (maximum bipartite matching instead of the greedy loop).",
+        "text": "For ALL inputs (unbounded lists, any Schnorr-validity relation, key parser and clock value) the Lean model of the repaired code satisfies: HasValidSignatures accepts only if n signatures verify under n DISTINCT positions of the key list (sound; complete when a signature verifies under at most one listed key; exact for the refund threshold 1); VerifyP2PKLockedProof = ok implies — and under the same hypothesis is equivalent to — the declarative NUT-11 statement Spec.spendableP2PK (tag lookup 'last wins', well-formedness as ∀-clauses, threshold as ∃ of a sublist of signatures paired with a sub-permutation of keys, locktime/refund rule); malformed tag lists are rejected whatever the witness; a SIG_ALL input at ANY position makes ProofsSigAll true, a successful swap then has every input NUT-10 + SIG_ALL with one shared key list and threshold and every output signed by that many distinct key positions over its decoded B_, and the melt is refused; the witnesses written by AddSignatureToInputs/Outputs are accepted under the stated entitlement; the TEXT of the secret (nut10.DeserializeSecret decides whether a lock is enforced at all): for every text, JSON whitespace before and after it changes neither the value read nor the kind (secret_text_whitespace_insignificant, by induction over the character list through the scanner's states), and the kind is P2PK iff the first array element decodes to exactly that string (p2pk_kind_by_first_element). The model is tied to the source by pinned go/printer bodies of the 13 mirrored functions, constants, error table and call skeletons, and by the stream p2pk (exhaustive product of the quantifier x 20 witness shapes with real btcec keys/signatures, corner cases, seeded random, SIG_ALL input lists up to length 5 x output shapes, helpers) with a model-free NUT-11 evaluator (maximum bipartite matching instead of the greedy loop).",
         "note": 'Defects F6 (last key recounted) and F7 (ProofsSigAll false after a plain input) were reproduced by the monitors on the unchanged code (findings/F6.json, F7.json), repaired in /repo (b480424, e0978fe) and are re-run as regressions. Observations that are not violations of the property as stated: (1) distinctness is over key POSITIONS: a lock that lists one key twice, or a key and its negation (same BIP-340 x-only key), gives that signer two votes — both model and NUT evaluator follow the code here; for duplicate-free key lists the theorem hasValidSignatures_distinct_keys gives n different keys; (2) the SIG_ALL output check authorises every key of the `pubkeys` tag even when `n_sigs` is absent (nut11.PublicKeys), whereas the input check then authorises only the lock key; (3) IsSigAll looks for any tag equal to ["sigflag","SIG_ALL"] while ParseP2PKTags takes the last sigflag tag of length >= 2. Mint.Swap/MeltTokens are additionally run for real (stream spendmint: LoadMint on SQLite + the FakeBackend of the repository, proofs issued by the mint itself for NUT-10 secrets, the locked proof at every position) against Model.Spend.swapSpendCheck/meltSpendCheck and the SIG_ALL evaluator; run against a copy of the unrepaired code that stream reports F6 and F7 at the Mint level (swap with unsigned outputs and melt of [plain,…,SIG_ALL] accepted).',
         "assumptions": COMMON_ASSUME + [
             "signatures, keys and digests are symbolic ids; BIP-340 verification is the parameter `valid` (the streams instantiate it with real btcec signatures and cross-check the harness's by-construction table against btcec)",
-            "the JSON decoding of secrets and witnesses (encoding/json, nut10.DeserializeSecret) is outside the model: the model starts from the decoded structures",
+            "the TEXT of a secret is inside the model (Model.Nut10Parse over Model.GoJson: JSON scanner, unquoting, Go's decoding into []RawMessage / string / SecretData incl. case-folded member names, duplicate members, nulls; pinned body of DeserializeSecret; stream nut10 compares it with nut10.DeserializeSecret on ~12,000 (thorough 160,000) valid spellings and malformed texts and checks every valid spelling against the value it was generated from); not modelled there: invalid UTF-8, the 10,000 nesting limit. The JSON decoding of WITNESSES is still outside the model (the harness decodes them with encoding/json)",
             "time.Now() cannot be controlled in the real code: locktimes in the streams lie 10^6 s in the past or future",
         ],
     },
@@ -186,15 +186,15 @@ PROPS = {
         "claimed": True,
         "title": "HTLC locks: spendable only with the preimage and required signatures (NUT-14)",
         "lean": ["Gonuts.Props.C13", "Gonuts.Tie.Spend"],
-        "streams": ["htlc", "spendmint", "spendwallet"],
+        "streams": ["htlc", "spendmint", "spendwallet", "nut10"],
         "level": "proof",
         "technique": "Lean 4 theorems over Model.Spend (line-by-line model of nut14.go and the HTLC branch of verifyBlindedMessages; SHA-256 of the preimage, Schnorr validity and the clock are parameters) against the declarative Spec.Spendable; pinned function bodies; differential correspondence and a model-free NUT-14 evaluator on real keys/signatures/preimages",
         "design_ref": "DESIGN.md §4.3, §5 C13",
-        "text": 'For ALL inputs the Lean model of the repaired code satisfies: VerifyHTLCProof = ok implies — and, when a signature verifies under at most one listed key, is equivalent to — the declarative NUT-14 statement Spec.spendableHTLC (before the locktime: the hex-decoded preimage hashes to the 64-character lock value and, if n_sigs>0, n_sigs distinct positions of pubkeys signed with no repeated signature string; after it only the refund rule); a non-hex or wrong preimage and a lock value that is not 64 characters are rejections; with a SIG_ALL HTLC first input a successful swap has every output carrying the preimage and the signatures; the witnesses written by AddWitnessHTLC (inputs) and AddWitnessHTLCToOutputs (outputs) are accepted whenever the helper succeeds, the preimage is right and the key is listed. Stream htlc: exhaustive product hash x n_sigs x pubkeys x locktime x refund x sigflag x (7 preimage + 14 signature shapes) with real signatures, SIG_ALL output shapes, helpers end to end, model-free NUT-14 evaluator.',
+        "text": 'For ALL inputs the Lean model of the repaired code satisfies: VerifyHTLCProof = ok implies — and, when a signature verifies under at most one listed key, is equivalent to — the declarative NUT-14 statement Spec.spendableHTLC (before the locktime: the hex-decoded preimage hashes to the 64-character lock value and, if n_sigs>0, n_sigs distinct positions of pubkeys signed with no repeated signature string; after it only the refund rule); a non-hex or wrong preimage and a lock value that is not 64 characters are rejections; with a SIG_ALL HTLC first input a successful swap has every output carrying the preimage and the signatures; the witnesses written by AddWitnessHTLC (inputs) and AddWitnessHTLCToOutputs (outputs) are accepted whenever the helper succeeds, the preimage is right and the key is listed; the lock cannot be switched off by the spelling of the secret: whitespace around ANY secret text changes neither the value nor the kind read by DeserializeSecret, and the kind is HTLC iff the first array element decodes to exactly that string (secret_text_whitespace_insignificant, htlc_kind_by_first_element; Model.Nut10Parse). Stream nut10 compares DeserializeSecret with the model and with the generating value on every spelling; stream spendmint presents non-canonical spellings of locked secrets to the real Mint.Swap / MeltTokens. Stream htlc: exhaustive product hash x n_sigs x pubkeys x locktime x refund x sigflag x (7 preimage + 14 signature shapes) with real signatures, SIG_ALL output shapes, helpers end to end, model-free NUT-14 evaluator.',
         "note": "Defect F8 (AddWitnessHTLCToOutputs signed the hex text of B_) and the HTLC face of F6 were reproduced on the unchanged code (findings/F8.json, F6-htlc.json), repaired (27d7371, b480424) and are re-run as regressions. Observations: an HTLC with a `pubkeys` tag but no `n_sigs` needs no signature (the code keys the signature check on n_sigs>0, as the property statement does); SIG_ALL + HTLC without pubkeys can never pass the output check (threshold 1 over an empty key list) — safe; the SIG_ALL consistency check compares key lists and thresholds but not the hash of different HTLC inputs (outputs are checked against the FIRST input's hash). wallet.ReceiveHTLC and wallet.Receive are executed end to end by stream spendwallet (two real wallets, real mint over in-process HTTP): on the unrepaired code that stream reports F8 as a failed ReceiveHTLC of a SIG_ALL HTLC token.",
         "assumptions": COMMON_ASSUME + [
             "signatures, keys, digests are symbolic ids; `valid` and `sha256hex` are parameters (instantiated with real btcec signatures and crypto/sha256 by the stream)",
-            "the JSON decoding of secrets and witnesses is outside the model",
+            "the TEXT of a secret is inside the model (Model.Nut10Parse, see C12); the JSON decoding of witnesses is outside the model",
             "the wallet flows (stream spendwallet) are monitor-only: a fixed table of lock configurations with the outcome NUT-11/14 prescribe, not a model comparison",
         ],
     },
